@@ -9,6 +9,7 @@ import (
 	"regexp"
 	"strconv"
 	"strings"
+	"sync"
 	"testing"
 	"testing/iotest"
 
@@ -246,6 +247,89 @@ func TestCheckNoCrash(t *testing.T) {
 	})
 }
 
+// ---- several decoders at the same time ---------------------------------------------------------
+
+type parallelCase struct {
+	Streams     []gen.Str `json:"streams"`
+	MultiLine   bool      `json:"multiline"`
+	InvalidInds bool      `json:"invalid_indents"`
+}
+
+func decodeOutcome(data string, multiLine, invalidInds bool) (out string) {
+	defer func() {
+		if p := recover(); p != nil {
+			out = fmt.Sprintf("panic: %v", p)
+		}
+	}()
+	dec := gedcom.NewDecoder(strings.NewReader(data))
+	dec.AllowMultiLine, dec.AllowInvalidIndents = multiLine, invalidInds
+	doc, err := dec.Decode()
+	if err != nil {
+		return "error: " + err.Error()
+	}
+	return "document:\n" + doc.String()
+}
+
+// checkParallel: a decoder reads its own stream; what it returns does not depend on what other
+// decoders are doing at the same time, or on what decoders did before (failed ones included).
+func checkParallel(c parallelCase) *harness.Failure {
+	want := make([]string, len(c.Streams))
+	for i, d := range c.Streams {
+		want[i] = decodeOutcome(string(d), c.MultiLine, c.InvalidInds)
+	}
+	for round := 0; round < 3; round++ {
+		got := make([]string, 2*len(c.Streams))
+		start := make(chan struct{})
+		var wg sync.WaitGroup
+		for k := range got {
+			wg.Add(1)
+			go func(k int) {
+				defer wg.Done()
+				<-start
+				got[k] = decodeOutcome(string(c.Streams[k%len(c.Streams)]), c.MultiLine, c.InvalidInds)
+			}(k)
+		}
+		close(start)
+		wg.Wait()
+		for k := range got {
+			if i := k % len(c.Streams); got[k] != want[i] {
+				return harness.Failf("parallel-decode-differs", "%d decoders run at the same time (round %d), each on its own stream; stream %q gives\n%s\nwhen decoded alone it gives\n%s", len(got), round+1, trunc(string(c.Streams[i])), trunc(got[k]), trunc(want[i]))
+			}
+		}
+	}
+	return nil
+}
+
+func TestCheckParallelDecoders(t *testing.T) {
+	s := harness.NewSub("parallel-decoders",
+		"4..7 streams - two to five from the classes of generated-streams (cut to 20 000 bytes), one that the decoder refuses and one ordinary file - under one option set: each is decoded alone, then three rounds of two decoders per stream all at the same time; oracle: every decoder returns exactly what the lone decoder returned for its stream (document text, error text or the tolerated panic); non-trivial = at least one stream is refused and at least one gives a document")
+	s.Rapid(t, harness.Share(harness.Pick(8000, 300000)), 31, func(rt *rapid.T) {
+		c := parallelCase{MultiLine: rapid.Bool().Draw(rt, "multiline"), InvalidInds: rapid.Bool().Draw(rt, "invalidIndents")}
+		for k := rapid.IntRange(2, 5).Draw(rt, "n"); k > 0; k-- {
+			d := genData().Draw(rt, "data")
+			if len(d) > 20000 {
+				d = d[:20000]
+			}
+			c.Streams = append(c.Streams, gen.Str(d))
+		}
+		c.Streams = append(c.Streams, gen.Str(rapid.SampledFrom([]string{"hello\n", "0 A\nhello\n", "0 HUSB @I1@\n", "0 @I1@ INDI\n1 CHIL\n"}).Draw(rt, "refused")),
+			gen.Str("0 HEAD\n1 CHAR UTF-8\n0 @I1@ INDI\n1 NAME John /Smith/\n1 BIRT\n2 DATE 3 Sep 1943\n0 @F1@ FAM\n1 HUSB @I1@\n0 TRLR\n"))
+		s.Crumb(c)
+		fl := checkParallel(c)
+		s.Eval(harness.JSON(c), true, fmt.Sprintf("streams:%d", len(c.Streams)))
+		total := 0
+		for _, d := range c.Streams {
+			total += len(d)
+		}
+		if total < 600 {
+			s.MaybeSample(c)
+		}
+		if fl != nil && s.Report(c, fl) {
+			rt.Fatalf("%s", fl.Msg)
+		}
+	})
+}
+
 // every adversarial constant, every truncation of it, under every option set
 func TestCheckAdversarialExhaustive(t *testing.T) {
 	s := harness.NewSub("adversarial-truncations", "every prefix of every adversarial constant (incl. long lines of two-, three- and four-byte letters and of invalid UTF-8) x 4 option combinations, each once as the whole stream and once as what a reader delivers before it fails with an error (exhaustive); all distinct by construction")
@@ -311,6 +395,21 @@ func init() {
 	for _, n := range []string{"generated-streams", "adversarial-truncations", "fuzz"} {
 		harness.RegisterReplay(n, replay)
 	}
+}
+
+func init() {
+	harness.RegisterReplay("parallel-decoders", func(raw json.RawMessage) *harness.Failure {
+		var c parallelCase
+		if err := json.Unmarshal(raw, &c); err != nil {
+			return harness.Failf("bad-replay", "%v", err)
+		}
+		for i := 0; i < 50; i++ { // two decoders have to meet
+			if f := checkParallel(c); f != nil {
+				return f
+			}
+		}
+		return nil
+	})
 }
 
 func TestReplay(t *testing.T) { harness.RunReplay(t) }
